@@ -8,6 +8,7 @@ import (
 	"encoding/json"
 	"fmt"
 	"math/rand"
+	"sort"
 	"strings"
 
 	ariesdid "github.com/trustbloc/did-go/doc/did"
@@ -296,7 +297,7 @@ func genC17(seed int64, tier string) []caseOut {
 					continue
 				}
 				doc.Authentication = append(doc.Authentication, *ariesdid.NewReferencedVerification(vm, ariesdid.Authentication))
-				if r.Intn(2) == 0 {
+				if r.Intn(2) == 0 || i == 0 { // (first round: every key under both relationships)
 					doc.AssertionMethod = append(doc.AssertionMethod, *ariesdid.NewReferencedVerification(vm, ariesdid.AssertionMethod))
 				}
 			}
@@ -331,6 +332,29 @@ func genC17(seed int64, tier string) []caseOut {
 						idOK = rd.DIDDocument.ID == first && len(rd.DIDDocument.VerificationMethod) == nkeys &&
 							len(rd.DocumentMetadata.EquivalentID) > 0 && strings.HasPrefix(first, rd.DocumentMetadata.EquivalentID[0]+":")
 						if fmt.Sprint(rd.DIDDocument.AlsoKnownAs) != fmt.Sprint(doc.AlsoKnownAs) {
+							idOK = false
+						}
+						// the DID followed by a DID URL tail (fragment, query, path) is another string: whatever
+						// resolves is a document whose id is the string that was asked for
+						for _, tail := range []string{"#key-1", "?service=files", "/path", "/path/to?query=1#frag", "?versionId=1", "#"} {
+							if rt, e3 := vdr.Read(first + tail); e3 == nil && rt != nil && rt.DIDDocument != nil && rt.DIDDocument.ID != first+tail {
+								idOK = false
+							}
+						}
+						// every key comes back under every relationship it was supplied under
+						relIDs := func(vs []ariesdid.Verification) string {
+							var l []string
+							for _, v := range vs {
+								id := v.VerificationMethod.ID
+								if k := strings.LastIndex(id, "#"); k >= 0 {
+									id = id[k+1:]
+								}
+								l = append(l, id)
+							}
+							sort.Strings(l)
+							return strings.Join(l, ",")
+						}
+						if relIDs(rd.DIDDocument.Authentication) != relIDs(doc.Authentication) || relIDs(rd.DIDDocument.AssertionMethod) != relIDs(doc.AssertionMethod) {
 							idOK = false
 						}
 						// the services supplied come back with all their members
